@@ -133,8 +133,16 @@ def subject(case):
         c = 1 if spec["kind"] in panelpool.UNIVARIATE_ONLY else 1 + case["seed"] % 2
         X3 = panelpool.panel_values(case["seed"], 6, c, 20)
         cont = case["container"]
-        X = panelpool.to_nested(X3, cells="array" if cont == "nested_array" and spec["kind"] not in ("pad", "trunc", "interp", "paa", "dslope", "slope", "dwt", "hog") else "series") if cont != "numpy3d" else X3
         Xa3 = panelpool.panel_values(case["seed"] + 11, 4, c, 20)
+        if spec["kind"] == "plateau":
+            # runs of missing values (what the finder looks for by default)
+            for A in (X3, Xa3):
+                for i in range(len(A)):
+                    a0 = 1 + (3 * i + case["seed"]) % 5
+                    A[i, 0, a0: a0 + 2 + i % 3] = np.nan
+                    if i % 2:
+                        A[i, 0, a0 + 6: a0 + 8] = np.nan
+        X = panelpool.to_nested(X3, cells="array" if cont == "nested_array" and spec["kind"] not in ("pad", "trunc", "interp", "paa", "dslope", "slope", "dwt", "hog") else "series") if cont != "numpy3d" else X3
         data = {"X": X, "y": panelpool.labels_for(6, "int"), "Xa": panelpool.to_nested(Xa3) if cont != "numpy3d" else Xa3}
         s2 = dict(spec, random_state=rs)
         return {"make": lambda: panelpool.build_panel_transformer(s2), "fit": lambda e: e.fit(data["X"], data["y"]),
